@@ -1,6 +1,203 @@
 import CkbVerif.Driver.Util
+import CkbVerif.Model.Since
+import CkbVerif.Model.Tx
+
+/-! Line-protocol driver for C04 (protocol: harness/n04/src/c04.rs). Sub-modes: `time`, `resolve`,
+`cap`, `node`. -/
 namespace CkbVerif.Driver.C04
-def main (_args : List String) : IO UInt32 := do
-  IO.eprintln "C04: model driver not implemented"
-  return 2
+open CkbVerif.Driver CkbVerif.Since CkbVerif.Tx
+
+/-! ### parsing helpers -/
+
+def splitList (s : String) : List String := if s = "-" then [] else s.splitOn ","
+
+/-- `bn.ep.bh.idx` or `n` -/
+def parseInfo? (s : String) : Option (Option TxInfo) :=
+  if s = "n" then some none else
+  match (s.splitOn ".").mapM parseNat? with
+  | some [a, b, c, d] => some (some ⟨a, b, c, d⟩)
+  | _ => none
+
+def parseOp? (s : String) : Option OutPoint :=
+  match (s.splitOn ".").mapM parseNat? with
+  | some [a, b] => some ⟨a, b⟩
+  | _ => none
+
+def showOp (o : OutPoint) : String := s!"{o.tx}.{o.idx}"
+def showOps (l : List OutPoint) : String := if l.isEmpty then "-" else ",".intercalate (l.map showOp)
+
+def showV : V → String
+  | .ok => "ok"
+  | .invalidSince i => s!"invalid-since {i}"
+  | .immature i => s!"immature {i}"
+  | .cellbaseImmature .inputs i => s!"cellbase-immature inputs {i}"
+  | .cellbaseImmature .cellDeps i => s!"cellbase-immature deps {i}"
+  | .panic => "panic"
+
+def showRErr : RErr → String
+  | .dead o => s!"dead {showOp o}"
+  | .unknown o => s!"unknown {showOp o}"
+  | .invalidDepGroup o => s!"invalid-dep-group {showOp o}"
+  | .overLimit => "over-limit"
+  | .invalidHeader h => s!"invalid-header {h}"
+  | .outOfOrder o => s!"out-of-order {showOp o}"
+
+def showCapV : CapV → String
+  | .ok => "ok"
+  | .overflow => "overflow"
+  | .outputsSumOverflow => "outputs-sum-overflow"
+  | .insufficient i => s!"insufficient {i}"
+
+/-! ### `time` -/
+
+structure TimeSt where
+  cfg : Cfg := ⟨2, 0, 37, 0⟩
+  db : HeaderDb := []
+  env : Option Env := none
+
+def parseInputs? (s : String) : Option (List (Nat × Option TxInfo)) :=
+  (splitList s).mapM fun it =>
+    match it.splitOn ":" with
+    | [a, b] => do
+      let since ← parseNat? a
+      let info ← parseInfo? b
+      pure (since, info)
+    | _ => none
+
+def stepTime (s : TimeSt) (ts : List String) : TimeSt × String :=
+  match ts with
+  | ["cfg", a, b, c, d] =>
+    match parseNats? [a, b, c, d] with
+    | some [a, b, c, d] => ({ s with cfg := ⟨a, b, c, d⟩ }, "ok")
+    | _ => (s, "bad-op")
+  | ["hdr", a, b, c, d, e] =>
+    match parseNats? [a, b, c, d, e] with
+    | some [a, b, c, d, e] => ({ s with db := s.db ++ [⟨a, b, c, d, e⟩] }, "ok")
+    | _ => (s, "bad-op")
+  | ["env", ph, n, hid] =>
+    match parseNat? n, parseNat? hid with
+    | some n, some hid =>
+      match findHdr s.db hid with
+      | none => (s, "bad-op")
+      | some h =>
+        let phase? : Option Phase :=
+          if ph = "s" then some .submitted else if ph = "p" then some (.proposed n)
+          else if ph = "c" then some .committed else none
+        match phase? with
+        | none => (s, "bad-op")
+        | some p => ({ s with env := some ⟨p, h.number, h.epoch, h.id, h.parent⟩ }, "ok")
+    | _, _ => (s, "bad-op")
+  | ["tx", ins, deps] =>
+    match s.env, parseInputs? ins, (splitList deps).mapM parseInfo? with
+    | some env, some ins, some deps => (s, showV (timeRelativeVerify s.cfg s.db env ins deps))
+    | _, _, _ => (s, "bad-op")
+  | _ => (s, "bad-op")
+
+/-! ### `resolve` -/
+
+structure ResSt where
+  a : List (OutPoint × Status) := []
+  b : List (OutPoint × Status) := []
+  hdrs : List Nat := []
+  seen : List OutPoint := []
+
+def tableProvider (t : List (OutPoint × Status)) : Provider := fun op =>
+  match t.find? (fun e => e.1 == op) with
+  | some e => e.2
+  | none => .unknown
+
+def parseData? (s : String) : Option GroupData :=
+  if s = "-" ∨ s = "x" ∨ s = "e" then some none
+  else if s.startsWith "g:" then
+    match ((s.drop 2).toString.splitOn ",").mapM parseOp? with
+    | some l => some (if l.isEmpty then none else some l)
+    | none => none
+  else if s.startsWith "r:" then
+    match ((s.drop 2).toString.splitOn ":").mapM parseNat? with
+    | some [tx, n] => some (if n = 0 then none else some ((List.range n).map fun i => ⟨tx, i⟩))
+    | _ => none
+  else none
+
+def parseDep? (s : String) : Option Dep :=
+  if s.startsWith "c" then (parseOp? (s.drop 1).toString).map (⟨·, false⟩)
+  else if s.startsWith "g" then (parseOp? (s.drop 1).toString).map (⟨·, true⟩)
+  else none
+
+def nullOp : OutPoint := ⟨0, 0xFFFFFFFF⟩
+
+def mkRefs (ins : List OutPoint) (deps : List Dep) (hd : List Nat) : TxRefs :=
+  ⟨ins, decide (ins = [nullOp]), deps, hd⟩
+
+def stepResolve (s : ResSt) (ts : List String) : ResSt × String :=
+  match ts with
+  | ["cell", which, op, st, data] =>
+    match parseOp? op, parseData? data with
+    | some op, some g =>
+      let status? : Option Status :=
+        if st = "L" then some (.live g) else if st = "D" then some .dead
+        else if st = "U" then some .unknown else none
+      match status? with
+      | none => (s, "bad-op")
+      | some status =>
+        if which = "A" then ({ s with a := (op, status) :: s.a }, "ok")
+        else if which = "B" then ({ s with b := (op, status) :: s.b }, "ok")
+        else (s, "bad-op")
+    | _, _ => (s, "bad-op")
+  | ["hdrs", l] =>
+    match parseNatList? l with
+    | some l => ({ s with hdrs := l }, "ok")
+    | none => (s, "bad-op")
+  | ["seen", l] =>
+    match (splitList l).mapM parseOp? with
+    | some l => ({ s with seen := l }, "ok")
+    | none => (s, "bad-op")
+  | ["tx", ins, deps, hd] =>
+    match (splitList ins).mapM parseOp?, (splitList deps).mapM parseDep?, parseNatList? hd with
+    | some ins, some deps, some hd =>
+      let p := overlay (tableProvider s.a) (tableProvider s.b)
+      match resolveTx s.seen p (fun h => s.hdrs.contains h) (mkRefs ins deps hd) with
+      | .error e => (s, showRErr e)
+      | .ok (r, seen') =>
+        ({ s with seen := seen' },
+          s!"ok in={showOps r.inputs} cd={showOps r.cellDeps} gr={showOps r.depGroups} seen={seen'.length}")
+    | _, _, _ => (s, "bad-op")
+  | _ => (s, "bad-op")
+
+/-! ### `cap` -/
+
+def parseCapIn? (s : String) : Option (Nat × Bool) :=
+  match s.splitOn ":" with
+  | [c] => (parseNat? c).map (·, false)
+  | [c, "d"] => (parseNat? c).map (·, true)
+  | _ => none
+
+def parseOutput? (s : String) : Option Output :=
+  match s.splitOn ":" with
+  | [c, l, t, d] => do
+    let c ← parseNat? c
+    let l ← parseNat? l
+    let t ← (if t = "n" then some none else (parseNat? t).map some)
+    let d ← parseNat? d
+    pure ⟨c, l, t, d⟩
+  | _ => none
+
+def stepCap (s : Unit) (ts : List String) : Unit × String :=
+  match ts with
+  | ["cap", ins, outs] =>
+    match (splitList ins).mapM parseCapIn?, (splitList outs).mapM parseOutput? with
+    | some ins, some outs =>
+      let exempt := ins.isEmpty || ins.any (·.2)
+      (s, showCapV (capacityVerify exempt (ins.map (·.1)) outs))
+    | _, _ => (s, "bad-op")
+  | _ => (s, "bad-op")
+
+def main (args : List String) : IO UInt32 :=
+  match args with
+  | ["time"] => runLines ({} : TimeSt) stepTime
+  | ["resolve"] => runLines ({} : ResSt) stepResolve
+  | ["cap"] => runLines () stepCap
+  | _ => do
+    IO.eprintln "C04: expected sub-mode time|resolve|cap"
+    return 2
+
 end CkbVerif.Driver.C04
